@@ -39,8 +39,10 @@ func main() {
 		"stress jobs: 2-3 producers and 8-12 consumers (most with a context) compete on one small buffered channel for 15000+ values; counters for duplicates, early closure reports, per-sender disorder. " +
 		"lib jobs: a state changes every table reachable from its globals (library tables, metatables, function environments); states created before/after/concurrently must keep the pristine fingerprint. " +
 		"limit jobs: a retrying consumer receives (receive / select / select handler) with its registry or call stack at the limit; every value must still arrive once. " +
+		"edge histories: one state with a small fixed / growing / grown-to-its-maximum registry or a small call stack goes through history steps (errors raised while the registry was completely full, growth, recursion overflows, errors in coroutines and in gsub/sort/xpcall callbacks, failing channel calls) and then issues receive / select (receive and send cases, Lua handlers of fixed arity, varargs and 40 locals, a Go function as handler, handler on the second case), in the main thread or inside a coroutine, at every register height from beyond the limit down to where the operation has room; a failed operation is logged as RErrLimit and the top level then looks into the channel (select with default), closes and drains it. " +
 		"make jobs: pcall(channel.make, n) for sizes from 0 to 2^62 and negative ones next to a computing state. " +
 		"non-trivial = a history with >= 2 threads, >= 1 delivered value and >= 1 pair of operations of different threads overlapping in time, or a single-state script with >= 1 refused payload or closure report; " +
+		"an edge history with >= 1 operation that worked, >= 1 that failed after its leaf had been entered (the library call itself hit the limit) and the final closure report; " +
 		"an isolation job with >= 2 concurrent states; distinct by Gallina term"
 	w.Meta.Extra = map[string]any{"race_detector": raceEnabled}
 	r := lib.NewRand(a.Seed)
